@@ -2,6 +2,7 @@ package graphql
 
 import (
 	"bytes"
+	"context"
 
 	"github.com/99designs/gqlgen/zzsym"
 )
@@ -167,14 +168,30 @@ func Harness_C08_writeQuotedString() {
 	checkQuoted(in, buf.Bytes())
 }
 
+// one string per escape class of JSON, Go and HTML-safe quoting, and their neighbours
+var c08Strings = []string{
+	"", "a", "\x00", "\a", "\b", "\t", "\n", "\v", "\f", "\r", "\x1b", "\x1f", " ", "\"", "\\", "/", "<", ">", "&", "'", "\x7f",
+	"\x80", "\xbf", "\xc2", "\xc2\x80", "\xe2\x80", "\xe2\x80\xa8", "\xe2\x80\xa9", "\xef\xbf\xbd", "\xef\xbb\xbf", "\xed\xa0\x80", "\xf0\x9f\x98\x80",
+	"\xf3\xa0\x80\x81", "\xf4\x90\x80\x80", "\xff", "a\xffb", "\u00e9", "\u0085", "\u00a0", "\u200b", "\ufeff", "\\u0041", "a\"b\\c\n",
+}
+
 func Harness_C08_MarshalStringID() {
 	n := zzsym.Param("n", 1)
 	in := zzsym.Bytes("s", n)
 	var buf bytes.Buffer
-	if zzsym.Choice("which", 2) == 0 {
+	switch zzsym.Choice("which", 2+2*zzsym.Param("omittable", 0)) {
+	case 0:
 		MarshalString(string(in)).MarshalGQL(&buf)
-	} else {
+	case 1:
 		MarshalID(string(in)).MarshalGQL(&buf)
+	case 2:
+		// a string held by an Omittable (it has no marshaler of its own: the wrapper serialises it through
+		// encoding/json, which is an engine model: concrete strings from a corpus of escape classes)
+		in = []byte(c08Strings[zzsym.Choice("str", len(c08Strings))])
+		OmittableOf(string(in)).MarshalGQL(&buf)
+	case 3:
+		in = []byte(c08Strings[zzsym.Choice("str", len(c08Strings))])
+		OmittableOf(string(in)).MarshalGQLContext(context.Background(), &buf)
 	}
 	checkQuoted(in, buf.Bytes())
 }
